@@ -29,7 +29,7 @@ func init() {
 	reg.Register(runner.Check{
 		ID:    "C11",
 		Level: "exploration",
-		Rule: "exhaustive enumeration of negotiations against the real socks5 server code: method lists = all lists of length 0..4 over {0x00,0x01,0x02,0x80,0xff} plus 255-entry lists; credential configurations {none, one pair, two pairs}; supplied sub-negotiation {first pair, second pair, user of one pair with password of the other, wrong user, wrong password, every other cut of a configured pair's user+password concatenation, 15 near misses (case, trailing NUL/space, separator inside a field, fields exchanged), unknown user with empty password, empty/empty, 255-byte fields, version 0, version 5, truncated after every byte}; " +
+		Rule: "exhaustive enumeration of negotiations against the real socks5 server code: method lists = all lists of length 0..4 over {0x00,0x01,0x02,0x80,0xff} plus 255-entry lists; credential configurations {none, one pair, two pairs, one account with 255-byte user name and password, one account with a 255-byte password}; supplied sub-negotiation {first pair, second pair, user of one pair with password of the other, wrong user, wrong password, every other cut of a configured pair's user+password concatenation, 15 near misses (case, trailing NUL/space, separator inside a field, fields exchanged), unknown user with empty password, empty/empty, 255-byte fields, version 0, version 5, truncated after every byte}; " +
 			"placement {client-side authentication in front of a proxy dialer, server-side authentication in front of the egress}; an adaptive client follows whatever method the server selects and then sends a CONNECT; oracle = reference decision from RFC 1928/1929 and the statement, observed as 'proxy dialled / destination dialled'. distinct = distinct (configuration, method list, supplied credentials, placement)",
 		Assumptions: []string{
 			"'served' is observed as the proxy dialer being invoked (client placement) or the destination being dialled (server placement)",
@@ -95,7 +95,7 @@ func run(c scase) (served bool, note string, fail string) {
 	pd := &proxyDialer{n: n}
 	s.Run(func() {
 		conf := &socks5.Config{
-			AuthOpts:         socks5.Auth{ClientSideAuthentication: c.clientSide, IngressCredentials: pairs[:c.creds]},
+			AuthOpts:         socks5.Auth{ClientSideAuthentication: c.clientSide, IngressCredentials: credSet(c.creds)},
 			HandshakeTimeout: 2 * time.Second,
 			UseProxy:         c.clientSide,
 			Resolver:         stubResolver{},
@@ -228,6 +228,20 @@ func run(c scase) (served bool, note string, fail string) {
 	return
 }
 
+var longField = string(bytes.Repeat([]byte{'z'}, 255))
+
+// credSet: 0 none, 1 one pair, 2 two pairs, 3 one account whose user name and password are both 255
+// bytes (the RFC 1929 maximum), 4 an ordinary user name with a 255-byte password
+func credSet(k int) []socks5.Credential {
+	switch k {
+	case 3:
+		return []socks5.Credential{{User: longField, Password: longField}}
+	case 4:
+		return []socks5.Credential{{User: "u1", Password: longField}}
+	}
+	return pairs[:k]
+}
+
 func expected(c scase) bool {
 	has := func(m byte) bool { return bytes.IndexByte(c.methods, m) >= 0 }
 	if c.creds == 0 {
@@ -236,7 +250,7 @@ func expected(c scase) bool {
 	if !has(2) || c.s.ver != 1 || c.s.truncate >= 0 {
 		return false
 	}
-	for _, p := range pairs[:c.creds] {
+	for _, p := range credSet(c.creds) {
 		if p.User == c.s.user && p.Password == c.s.pass {
 			return true
 		}
@@ -259,6 +273,8 @@ func subs() []sub {
 		{"prefix-pass", 1, "u1", "p", -1},
 		{"longer-pass", 1, "u1", "p1x", -1},
 		{"255", 1, long, long, -1},
+		{"u1-255", 1, "u1", long, -1},
+		{"254", 1, long[:254], long[:254], -1},
 		{"ver0", 0, "u1", "p1", -1},
 		{"ver5", 5, "u1", "p1", -1},
 	}
@@ -316,7 +332,10 @@ func units(tier string) []runner.Unit {
 				if li%parts != part {
 					continue
 				}
-				for creds := 0; creds <= 2; creds++ {
+				for creds := 0; creds <= 4; creds++ {
+					if creds > 2 && len(methods) > 2 {
+						continue // the boundary-length accounts are run against the short method lists
+					}
 					for _, cs := range []bool{true, false} {
 						subset := ss[:1]
 						if bytes.IndexByte(methods, 2) >= 0 && creds > 0 {
